@@ -519,6 +519,7 @@ def main():
     exe = V.build_harness("C07_mem")
     res = V.check_properties(CID)
     drv = V.build_model(CID)
+    V.build_harness("C01_design"); V.build_model("NM")
     if "--build-only" in sys.argv:
         sys.exit(0)
     rep = V.Report(CID)
@@ -702,6 +703,14 @@ def main():
         "write-collision check relies on reading the drivers of the physical write ports through ReferenceSimulator::getValueOfOutput",
     ]
     cov["wall_tie_s"] = round(time.time() - t0, 1)
+    # ---------------- verified certificates for circuits with memories (constructed vs post-processed, all stimuli, all cycles)
+    import C07b
+    mb = C07b.run(rep, known_tokens)
+    for b in mb["broken"]:
+        rep.violation(dict(property=CID, kind="memory-certificate", what=b,
+                           note="tie or verified certificate of the memory-netlist model (NetMemDefs.v / MachineCert.v) broke; no concrete differing stimulus was confirmed on the real simulator"),
+                      nofail=True, tag="memcert")
+    cov["wall_total_s"] = round(time.time() - t0, 1)
     rep.finish()
 
 
